@@ -179,7 +179,7 @@ fn ping(addr: &str, port: u16) -> bool {
 }
 
 #[allow(clippy::too_many_arguments)]
-fn run_teosd(datadir: &Path, c: &CaseCfg, internal_port: u16, overwrite: (bool, bool), btc: &FakeBitcoind, api_cands: &[(String, u16)], rpc_cands: &[(String, u16)], user_id_hex: &str, expect_accept: bool) -> RunObs {
+fn run_teosd(datadir: &Path, c: &CaseCfg, internal_port: u16, overwrite: (bool, bool), force: (bool, bool), btc: &FakeBitcoind, api_cands: &[(String, u16)], rpc_cands: &[(String, u16)], user_id_hex: &str, expect_accept: bool) -> RunObs {
     std::fs::create_dir_all(datadir).unwrap();
     let mut toml = String::new();
     let mut args: Vec<String> = vec!["--datadir".into(), datadir.to_string_lossy().to_string()];
@@ -213,6 +213,12 @@ fn run_teosd(datadir: &Path, c: &CaseCfg, internal_port: u16, overwrite: (bool, 
     }
     if overwrite.1 {
         args.push("--overwritekey".into());
+    }
+    if force.0 {
+        toml.push_str("force_update = true\n");
+    }
+    if force.1 {
+        args.push("--forceupdate".into());
     }
     std::fs::write(datadir.join("teos.toml"), &toml).unwrap();
     let out_path = datadir.join("teosd.out");
@@ -387,7 +393,7 @@ pub fn run(seed: u64, shard: u64, cases: u64, only: Option<u64>, rep: &mut Repor
         r.eval();
         let describe = format!("file {{{}}} command line {{{}}}", describe_side(&c, true), describe_side(&c, false));
         let replay = json!({"engine":"e3cfg","seed":seed,"case":id});
-        let obs = run_teosd(&datadir, &c, internal, (false, false), &btc, &api_cands, &rpc_cands, &user_id_hex, ex.refused.is_none());
+        let obs = run_teosd(&datadir, &c, internal, (false, false), (false, false), &btc, &api_cands, &rpc_cands, &user_id_hex, ex.refused.is_none());
         r.nontrivial(fnv(describe.as_bytes()));
         let total_hits: u64 = obs.hits.iter().map(|h| h.1).sum();
         if let Some(why) = ex.refused {
@@ -438,7 +444,7 @@ pub fn run(seed: u64, shard: u64, cases: u64, only: Option<u64>, rep: &mut Repor
                 // the destructive switch: only the command line may replace the tower key
                 if overwrite_probe {
                     let k1 = obs.tower_key.clone();
-                    let obs2 = run_teosd(&datadir, &c, internal, ow, &btc, &api_cands, &rpc_cands, &user_id_hex, true);
+                    let obs2 = run_teosd(&datadir, &c, internal, ow, (false, false), &btc, &api_cands, &rpc_cands, &user_id_hex, true);
                     let k2 = obs2.tower_key.clone();
                     r.count(&format!("e3cfg_overwrite_key[file={},cli={}]", ow.0, ow.1), 1);
                     match (k1, k2) {
@@ -457,6 +463,25 @@ pub fn run(seed: u64, shard: u64, cases: u64, only: Option<u64>, rep: &mut Repor
                             }
                         }
                     }
+                }
+            }
+        }
+        // the other destructive switch: a pruned bitcoind that no longer has the blocks below the tower's last
+        // known block makes teosd refuse to start unless --forceupdate is given on the command line
+        if ex.refused.is_none() && id % 4 == 1 && obs.exited.is_none() && !obs.api_answers.is_empty() {
+            let fu = (rng.chance(1, 2), rng.chance(1, 2));
+            let h = lock(&world.chain).height() as u64;
+            lock(&btc.st.0).prune_height = Some(h + 20);
+            world.mine(&(0..140).map(|_| vec![]).collect::<Vec<_>>(), id);
+            let obs3 = run_teosd(&datadir, &c, internal, (false, false), fu, &btc, &api_cands, &rpc_cands, &user_id_hex, fu.1);
+            lock(&btc.st.0).prune_height = None;
+            r.count(&format!("e3cfg_force_update[file={},cli={}]", fu.0, fu.1), 1);
+            let started = obs3.exited.is_none() && !obs3.api_answers.is_empty();
+            if started != fu.1 {
+                if obs3.output.contains("Address already in use") {
+                    r.inconclusive += 1;
+                } else {
+                    r.violation(if started { "C20:binary:forced-update-without-command-line-switch" } else { "C20:binary:force-update-switch-ignored" }, format!("case {id} ({describe}): bitcoind pruned above the tower's last known block; force_update in file = {}, --forceupdate = {}: teosd started = {started} (exit {:?}, output tail {:?})", fu.0, fu.1, obs3.exited, tail(&obs3.output)), replay.clone());
                 }
             }
         }
